@@ -742,20 +742,22 @@ func vf38Request(rng *rand.Rand, committee keys.PublicKeys, proxy util.Uint160, 
 // fixture
 
 type vf38Fixture struct {
-	chain     *vf38Chain
-	listener  event.Listener
-	proc      *netmapprocessor.Processor
-	pool      *ants.Pool
-	alphabet  *vf38Alphabet
-	epoch     *vf38EpochState
-	timer     *vf38Timer
-	netmapSH  util.Uint160
-	proxy     util.Uint160
-	vSeen     []string
-	vMu       sync.Mutex
-	syncs     int
-	deposits  int
-	validator []string
+	chain        *vf38Chain
+	listener     event.Listener
+	proc         *netmapprocessor.Processor
+	pool         *ants.Pool
+	alphabet     *vf38Alphabet
+	epoch        *vf38EpochState
+	timer        *vf38Timer
+	netmapSH     util.Uint160
+	proxy        util.Uint160
+	vSeen        []string
+	vMu          sync.Mutex
+	syncs        int
+	deposits     int
+	validator    []string
+	earlier      []*keys.PublicKey // keys of the requests delivered so far
+	approvedKeys map[string]bool   // keys with an approved request so far
 }
 
 func vf38NewFixture(t testing.TB, rng *rand.Rand, validators []string) *vf38Fixture {
@@ -871,6 +873,9 @@ func TestVerif_C38(t *testing.T) {
 	if r.Counter("addnode_refused_validator") == 0 || r.Counter("addnode_refused_chain_verdict") == 0 {
 		r.Inconclusive("refusal paths were not exercised")
 	}
+	if r.Counter("addnode_refused_validator_for_key_approved_earlier") == 0 || r.Counter("addnode_approved_again_with_new_descriptor") == 0 {
+		r.Inconclusive("no key was announced again with a new descriptor after an approval (both outcomes needed)")
+	}
 	for _, name := range []string{"state", "structure", "privatedomains", "locode"} {
 		if r.Counter("reference_rule_rejects_"+name) == 0 {
 			r.Inconclusive("no candidate broke the rule of validator " + name + " while it was configured")
@@ -895,6 +900,16 @@ func vf38AdmissionCase(r *verifkit.Run, f *vf38Fixture, rng *rand.Rand, ci, qi i
 		kind = "unknown-method"
 	}
 	nodes := []vf38Node{vf38GenNode(rng)}
+	if len(f.earlier) > 0 && rng.IntN(4) == 0 {
+		// a candidate announcing itself again with other information (restart with a new
+		// configuration, or somebody else using its key): same public key as an earlier request
+		// of this configuration, fresh descriptor
+		nodes[0].Key = f.earlier[rng.IntN(len(f.earlier))]
+		nodes[0].KeyS = nodes[0].Key.StringCompressed()
+		r.Count("requests_with_key_of_an_earlier_request_and_new_descriptor", 1)
+	}
+	f.earlier = append(f.earlier, nodes[0].Key)
+	keyApprovedEarlier := f.approvedKeys[nodes[0].KeyS]
 	b := smartcontract.NewBuilder()
 	switch kind {
 	case "two-calls":
@@ -1044,6 +1059,15 @@ func vf38AdmissionCase(r *verifkit.Run, f *vf38Fixture, rng *rand.Rand, ci, qi i
 		}
 		approved = true
 		r.Count("addnode_approved", 1)
+		for _, n := range nodes {
+			if f.approvedKeys == nil {
+				f.approvedKeys = map[string]bool{}
+			}
+			f.approvedKeys[n.KeyS] = true
+		}
+		if keyApprovedEarlier {
+			r.Count("addnode_approved_again_with_new_descriptor", 1)
+		}
 		if !(verdict.ok && verdict.err == nil) {
 			r.Violation("addnode|approved-although-script-not-valid|"+vs, fmt.Sprintf("admission approved although the chain's verdict on the main script was %q", vs), desc)
 		}
@@ -1081,6 +1105,9 @@ func vf38AdmissionCase(r *verifkit.Run, f *vf38Fixture, rng *rand.Rand, ci, qi i
 			r.Count("addnode_refused_chain_verdict", 1)
 		case len(rej) > 0 || abstain:
 			r.Count("addnode_refused_validator", 1)
+			if keyApprovedEarlier {
+				r.Count("addnode_refused_validator_for_key_approved_earlier", 1)
+			}
 			for _, m := range must {
 				r.Seen("refused_and_reference_rule_rejects", m)
 			}
